@@ -7,7 +7,7 @@ from .lib import decision, guards, paths
 from .lib.mir import AnchorLost
 from .lib.reachrule import ReachRule
 
-CONFIGS_QUICK = ["A"]
+CONFIGS_QUICK = ["A", "R"]
 CONFIGS_THOROUGH = ["A", "R", "ASYNCSTD", "SMOL", "NIO", "GLOMMIO", "NOAPI"]
 TECHNIQUE = "MIR call-graph reachability of panic/unsafe sinks from the request parser and accessors + guard audit; header/method literal tables; def-use of the read count"
 LEVEL_TEXT = ('Decides clauses C02-a..f: no panic sink and no unguarded unsafe operation is reachable from Request::read/read_payload (request line, headers, '
